@@ -312,7 +312,7 @@ func rollHistExplore(prop, unit string) {
 	}
 	var cfgs []cfg
 	if prop == "C08" {
-		cfgs = []cfg{{"RollingInPlace", false, false, false}, {"RollingRecreate", true, false, false}}
+		cfgs = []cfg{{"RollingInPlace", false, false, false}, {"RollingRecreate", true, false, false}, {"RollingRecreate", false, true, true}}
 		if mc.Thorough() {
 			cfgs = append(cfgs, cfg{"RollingInPlace", true, false, false}, cfg{"RollingRecreate", false, false, false}, cfg{"RollingRecreate", false, false, true})
 		}
